@@ -205,6 +205,7 @@ func startServers() {
 }
 
 type Op struct {
+	Sub bool `json:"sub,omitempty"` // handshake: the configuration also names a sub-command (AuthCommand), another of the four commands
 	K    string `json:"k"`
 	Tag  int    `json:"tag"`
 	Srv  int    `json:"srv"`
@@ -458,6 +459,12 @@ func runCase(c Case) (string, stats) {
 				cfg = sharedCfg
 			}
 			cfg.SessionCache, cfg.SecurityTag, cfg.Command = cache, tag, cmd
+			// a sub-command travelling in the handshake (AuthCommand) is not the command the session is used for:
+			// the cached session is found by (tag, address, Command) whatever sub-command is named
+			cfg.AuthCommand = 0
+			if op.Sub {
+				cfg.AuthCommand = cmds[(op.Cmd+1+op.V%3)%4]
+			}
 			for k, sid := range md.route {
 				if md.clientLive[sid] && k != key && (k.tag != key.tag || k.addr != key.addr) {
 					st.crossTriple = true
@@ -593,7 +600,7 @@ func genCase(t *rapid.T) Case {
 	for i := 0; i < n; i++ {
 		k := rapid.SampledFrom([]string{"handshake", "handshake", "handshake", "handshake", "handshake", "policy", "restart", "break", "expire", "invalidate", "sweep", "mint", "inherit"}).Draw(t, "op")
 		c.Ops = append(c.Ops, Op{K: k, Tag: rapid.IntRange(0, 2).Draw(t, "tag"), Srv: rapid.IntRange(0, 2).Draw(t, "srv"),
-			Cmd: rapid.IntRange(0, 3).Draw(t, "cmd"), API: rapid.IntRange(0, 1).Draw(t, "api"), V: rapid.IntRange(0, 15).Draw(t, "v")})
+			Cmd: rapid.IntRange(0, 3).Draw(t, "cmd"), API: rapid.IntRange(0, 1).Draw(t, "api"), V: rapid.IntRange(0, 15).Draw(t, "v"), Sub: k == "handshake" && rapid.IntRange(0, 3).Draw(t, "sub") == 0})
 	}
 	return c
 }
@@ -725,6 +732,9 @@ func TestC07Directed(t *testing.T) {
 			cases = append(cases, Case{Ops: []Op{hs(tg, 0, 0, api), {K: "expire", V: 1}, hs(tg, 0, 0, api), {K: "sweep"}, hs(tg, 0, 1, api)}})
 			cases = append(cases, Case{Ops: []Op{{K: "policy", Srv: 0, V: 15}, hs(tg, 0, 0, api), {K: "expire", V: 1}, hs(tg, 0, 2, api), {K: "sweep"}, {K: "invalidate"}, {K: "sweep"}}})
 			cases = append(cases, Case{Ops: []Op{hs(tg, 0, 0, api), {K: "expire", V: 3}, {K: "sweep"}, hs(tg, 0, 1, api)}})
+			for v := 0; v < 3; v++ { // a session routed for one command only; then another command naming the first as its sub-command
+				cases = append(cases, Case{Ops: []Op{{K: "policy", Srv: 0, V: 1}, hs(tg, 0, 0, api), {K: "handshake", Tag: tg, Srv: 0, Cmd: 3 - v, API: api, Sub: true, V: v}, hs(tg, 0, 0, api)}})
+			}
 			for v := 0; v < 4; v++ { // inherited parent + family sessions, then handshakes for declared and undeclared commands
 				cases = append(cases, Case{Ops: []Op{{K: "inherit", Srv: 0, Cmd: v, V: v * 5}, hs(tg, 0, v, api), hs(tg, 0, (v+1)%4, api), hs(0, 0, (v+2)%4, api), hs(0, 1, v, api)}})
 			}
